@@ -217,7 +217,9 @@ CHECKS = {
         "topmost closed mark; exactly the topmost mark passed to a callee; nothing opened left at any exit) with mcheck_sound proved for all "
         "programs and glas_marks_checked evaluated on the regenerated program: no stale or empty mark is ever used, no node is left unfinished, "
         "no call hands back a value of the wrong shape. C02_total: on EVERY token list the run with linear fuel ends normally with all nodes "
-        "finished or in the parser's own look-ahead guard - nothing else; C01_total: the tree builder never fails."),
+        "finished or in the parser's own look-ahead guard - nothing else; C01_total: the tree builder never fails. C02_result_stable (via "
+        "exec_fuel_mono): from that fuel on the outcome does not depend on the model fuel; modelFuel_ge_bound + driver_fuel_canonical: the fuel "
+        "the model driver uses in the correspondence runs is above the bound, so what the driver prints IS the model's answer."),
   note=TB + SYN + "Not modelled: the Rust call stack (depth is observed in the model as a number; the abort is observed on the implementation).",
   ref="5.C02, Appendix A.2-A.5"),
  "C04": dict(
